@@ -95,6 +95,12 @@ class IORunner:
             real = os.path.join(real_dir, "real.csv")
             open(real, "w").close()
             os.symlink(real, self.path)
+        elif case.get("hardlink"):
+            # the database file has a second name (a `cp -l` snapshot) in another directory
+            link_dir = os.path.join(self.dir, "snap")
+            os.mkdir(link_dir)
+            open(self.path, "w").close()
+            os.link(self.path, os.path.join(link_dir, "snapshot.csv"))
         self.undo = IO.install(S, self.path)
         self.saved_tmp = tempfile.tempdir
         tempfile.tempdir = self.tmpdir
@@ -116,6 +122,15 @@ class IORunner:
         if self.mode != "r+":
             kw["access_mode"] = self.mode
         self.r.csv_kwargs = kw
+        if case.get("ctx"):
+            # the database is used as a context manager: `with TinyFlux(...) as db:`
+            plain_open = self.r._open
+
+            def entered_open():
+                plain_open()
+                self.r.db.__enter__()
+
+            self.r._open = entered_open
         IO.CTL.reset()
         self.r._open()
 
@@ -184,6 +199,10 @@ def gen_case(seed, prop, idx):
         case["mode"] = ["r+", "r+", "r", "a", "w+"][idx % 5]
     if prop in ("C12", "C13", "C04") and idx % 5 == 3:
         case["symlink"] = True
+    elif prop in ("C12", "C13", "C04", "C16") and idx % 5 == 1:
+        case["hardlink"] = True
+    if idx % 4 == 2:
+        case["ctx"] = True
     import fam_hist
 
     w = {"C04": dict(ins=34, read=14, get=6, rm=16, upd=16, drop=3, rmall=3, reidx=3, reopen=5),
@@ -429,6 +448,12 @@ def analyse_case(case, prop, tier, root):
                                       dict(boundary=k)))
                         break
                     if code == 0:
+                        # the operation had returned before the process died (no boundary left): with
+                        # flush_on_insert=True its effect must be in the file, not in a user-space buffer
+                        if dec != new:
+                            extra.append(("impl-vs-spec", ["C12"], i,
+                                          f"`{V.sx(rec['op'])[:120]}` returned, then the process died: the file decodes to {dec}, not to the contents the operation left {new}",
+                                          dict(boundary="after-return")))
                         break
             else:
                 for after in (False, True):
@@ -514,7 +539,7 @@ class Family:
         prop = self.prop
         n = {"C04": 1200, "C12": 160, "C13": 120, "C15": 1000, "C16": 1200}[prop]
         if tier == "thorough":
-            n *= 10
+            n *= 40 if prop in ("C04", "C15", "C16") else 25
         if search:
             n *= 2
         base = C.seed() * 7907 + int(prop[1:]) * 101
@@ -558,6 +583,9 @@ class Family:
                 mf, ms = mode_checks(root, tier)
                 findings += mf
                 stats.update(ms)
+                nf, ns = noop_update_checks(root)
+                findings += nf
+                stats.update(ns)
             if prop == "C16":
                 sf, ss = size_independence(root, tier)
                 findings += sf
@@ -578,6 +606,60 @@ class Family:
 
     def replay_known(self, k):
         return False
+
+
+def noop_update_checks(root):
+    """C15: an update whose every matched point ends up equal to what it was — the same number as the zero of
+    the other sign or as int/float twin, the same instant presented in another zone, the same text — is a no-op:
+    it answers 0 and the file's bytes and the directories are untouched"""
+    from datetime import timedelta, timezone
+
+    tf = C.import_tinyflux()
+    findings, n = [], 0
+    T = V.dt_of(G.T0)
+    east = timezone(timedelta(hours=5, minutes=45))
+    cases = [
+        ("fields={'v': -0.0} where v == 0.0", lambda db: db.update_all(fields={"v": -0.0})),
+        ("fields=callable negating the zero", lambda db: db.update(tf.FieldQuery().v == 0.0, fields=lambda f: {"v": -f["v"]})),
+        ("measurement('m').update_all(fields={'v': -0.0})", lambda db: db.measurement("m").update_all(fields={"v": -0.0})),
+        ("fields={'w': 1.0} where w == 1", lambda db: db.update_all(fields={"w": 1.0})),
+        ("time=the same instant at +05:45", lambda db: db.update_all(time=T.astimezone(east))),
+        ("time=callable returning the same instant in another zone", lambda db: db.update_all(time=lambda t: t.astimezone(east))),
+        ("tags={'a': 'x'} where a == 'x'", lambda db: db.update(tf.TagQuery().a == "x", tags={"a": "x"})),
+        ("measurement='m' where it is 'm'", lambda db: db.update_all(measurement="m")),
+        ("unset_tags of a key no point has", lambda db: db.update_all(unset_tags=["zz"])),
+    ]
+    for au in (True, False):
+        for name, call in cases:
+            d = tempfile.mkdtemp(prefix="noop_", dir=root)
+            tmpd = os.path.join(d, "tmp")
+            os.mkdir(tmpd)
+            path = os.path.join(d, "db.csv")
+            saved = tempfile.tempdir
+            tempfile.tempdir = tmpd
+            try:
+                db = tf.TinyFlux(path, auto_index=au)
+                db.insert_multiple([tf.Point(time=T, measurement="m", tags={"a": "x"}, fields={"v": 0.0, "w": 1}),
+                                    tf.Point(time=T, measurement="m", tags={"a": "x"}, fields={"v": 0.0, "w": 1})])
+                before = open(path, "rb").read()
+                try:
+                    r = call(db)
+                except Exception as e:
+                    r = "raised " + type(e).__name__
+                n += 1
+                after = open(path, "rb").read()
+                ls = (sorted(os.listdir(tmpd)), sorted(x for x in os.listdir(d) if x != "tmp"))
+                db.close()
+                if r != 0 or after != before or ls != ([], ["db.csv"]):
+                    findings.append(Finding(
+                        "impl-vs-spec",
+                        f"auto_index={au}: update {name} changes no point, yet it answered {r!r}; file bytes "
+                        f"{'changed: ' + repr(after[:120]) if after != before else 'unchanged'}; directories {ls}",
+                        dict(family="io-noop-update", scenario=name, auto_index=au)))
+            finally:
+                tempfile.tempdir = saved
+                shutil.rmtree(d, ignore_errors=True)
+    return findings[:2], {"noop_update_trials": n}
 
 
 def mode_checks(root, tier):
@@ -695,6 +777,24 @@ def size_independence(root, tier):
 
 
 def replay(payload):
+    if payload.get("family") == "io-noop-update":
+        root = tempfile.mkdtemp(prefix="vf_io_replay_")
+        try:
+            fs, _ = noop_update_checks(root)
+            for f in fs:
+                print(f.summary)
+            return bool(fs)
+        finally:
+            shutil.rmtree(root, ignore_errors=True)
+    if payload.get("family") == "io-mode":
+        root = tempfile.mkdtemp(prefix="vf_io_replay_")
+        try:
+            fs, _ = mode_checks(root, "quick")
+            for f in fs:
+                print(f.summary)
+            return bool(fs)
+        finally:
+            shutil.rmtree(root, ignore_errors=True)
     if payload.get("family") != "io":
         print(json.dumps(payload, indent=1)[:2000])
         return True
